@@ -211,6 +211,10 @@ func VH_C05_ReadOffsets() {
 	// a user-data block (extension block number 0xfe) between the two cues
 	ud := append([]byte{}, d[1024:1024+128]...)
 	ud[3] = 0xfe // extension block number: reserved for user data
+	// arbitrary user data: it denotes nothing, whatever it contains (diacritic codes, control codes, filler)
+	for i := 0; i < 3; i++ {
+		ud[16+i] = nondetByteIn("x\xc2\x8f\x01\x0b\x8a")
+	}
 	doc := append(append(append([]byte{}, d[:1024+128]...), ud...), d[1024+128:]...)
 	r, err := ReadFromSTL(bytes.NewReader(doc), STLOptions{IgnoreTimecodeStartOfProgramme: ignore})
 	vassert(err == nil && len(r.Items) == 2, "C05 read: user-data blocks produce no cue and shift nothing")
